@@ -164,10 +164,179 @@ def run_query(name, qc):
 
 
 # ------------------------------------------------------------------------------------------
+# query purity on the FULL gate library (oracle level; the model only says: queries write nothing)
+
+LIB_1Q = ["X", "Y", "Z", "SNOT", "S", "T", "SQRTNOT"]
+LIB_1Q_ARG = ["RX", "RY", "RZ", "PHASEGATE"]
+LIB_2Q_FREE = ["SWAP", "ISWAP", "SQRTSWAP", "SQRTISWAP", "BERKELEY"]       # two targets, no control
+LIB_2Q_FREE_ARG = ["SWAPalpha", "MS", "RZX"]
+LIB_2Q_CTRL = ["CNOT", "CSIGN", "CZ", "CY", "CX", "CS", "CT"]
+LIB_2Q_CTRL_ARG = ["CPHASE", "CRX", "CRY", "CRZ"]
+
+
+def _user_crot():
+    import qutip
+    m = np.array([[1, 0, 0, 0], [0, 1, 0, 0], [0, 0, 0, -1j], [0, 0, -1j, 0]], dtype=complex)
+    return qutip.Qobj(m, dims=[[2, 2], [2, 2]])
+
+
+def _user_rot(arg):
+    import qutip
+    return qutip.Qobj([[np.cos(arg), -np.sin(arg)], [np.sin(arg), np.cos(arg)]])
+
+
+def rand_lib_circuit(rng, n=None):
+    """gates: {"name","targets","controls","arg","cc","ccv"} | {"M": target, "store": bit}"""
+    n = n or rng.randint(2, 4)
+    # `plain` circuits (library gates only, no measurement / user gate / classical control) so that the
+    # decomposition, routing and export passes get inputs they accept
+    plain = rng.random() < 0.45
+    ncb = 0 if plain else rng.randint(0, 2)
+    gates = []
+    for _ in range(rng.randint(1, 7)):
+        r = rng.random()
+        g = {"controls": None, "arg": None, "cc": None, "ccv": None}
+        if plain:
+            r = max(r, 0.081)
+        if r < 0.08:
+            gates.append({"M": rng.randrange(n), "store": (rng.randrange(ncb) if ncb else None)})
+            continue
+        elif r < 0.25:
+            nm = rng.choice(LIB_1Q + LIB_1Q_ARG + ([] if plain else ["UROT", "GLOBALPHASE"]))
+            g.update(name=nm, targets=[rng.randrange(n)])
+            if nm in LIB_1Q_ARG or nm in ("UROT", "GLOBALPHASE"):
+                g["arg"] = rng.choice([0.25, 0.5, -0.75, 1.0]) * math.pi
+            if nm == "GLOBALPHASE":
+                g["targets"] = None
+        elif r < 0.65:
+            # control-less multi-target gates, ascending AND descending target order, user-defined ones included
+            nm = rng.choice(LIB_2Q_FREE + (["SWAPalpha"] if plain else LIB_2Q_FREE_ARG + ["UCROT", "UCROT"]))
+            a, b = rng.sample(range(n), 2)
+            g.update(name=nm, targets=[a, b])
+            if nm in ("SWAPalpha", "RZX"):
+                g["arg"] = rng.choice([0.25, 0.5, 1.5])
+            if nm == "MS":
+                g["arg"] = [rng.choice([0.5, 1.0]) * math.pi, rng.choice([0.0, 0.5]) * math.pi]
+        elif r < 0.9 or n < 3:
+            nm = rng.choice(LIB_2Q_CTRL + LIB_2Q_CTRL_ARG)
+            a, b = rng.sample(range(n), 2)
+            g.update(name=nm, targets=[b], controls=[a])
+            if nm in LIB_2Q_CTRL_ARG:
+                g["arg"] = rng.choice([0.25, 0.5, -0.75]) * math.pi
+        else:
+            a, b, c_ = rng.sample(range(n), 3)
+            if rng.random() < 0.5:
+                g.update(name="TOFFOLI", targets=[c_], controls=[a, b])
+            else:
+                g.update(name="FREDKIN", targets=[b, c_], controls=[a])
+        if ncb and rng.random() < 0.15:
+            cc = rng.sample(range(ncb), rng.randint(1, ncb))
+            g["cc"], g["ccv"] = cc, rng.randrange(2 ** len(cc))
+        gates.append(g)
+    return {"kind": "qpure", "n": n, "ncb": ncb, "gates": gates}
+
+
+def build_lib_circuit(w):
+    from qutip_qip.circuit import QubitCircuit
+    qc = QubitCircuit(w["n"], num_cbits=w["ncb"])
+    qc.user_gates = {"UCROT": _user_crot, "UROT": _user_rot}
+    for g in w["gates"]:
+        if "M" in g:
+            qc.add_measurement("M", targets=[g["M"]], classical_store=g.get("store"))
+            continue
+        kw = {}
+        if g.get("cc") is not None:
+            kw = {"classical_controls": list(g["cc"]), "classical_control_value": g["ccv"]}
+        qc.add_gate(g["name"], targets=(None if g["targets"] is None else list(g["targets"])),
+                    controls=(list(g["controls"]) if g.get("controls") else None),
+                    arg_value=(list(g["arg"]) if isinstance(g.get("arg"), list) else g.get("arg")), **kw)
+    return qc
+
+
+def gates_view(qc):
+    """what a user sees of the gate objects (beyond vars(): order of targets/controls as stored)"""
+    out = []
+    for g in qc.gates:
+        out.append((type(g).__name__, g.name, None if g.targets is None else list(g.targets),
+                    None if getattr(g, "controls", None) is None else list(g.controls),
+                    repr(getattr(g, "arg_value", None)),
+                    None if getattr(g, "classical_controls", None) is None else list(g.classical_controls),
+                    getattr(g, "classical_control_value", None), getattr(g, "classical_store", None)))
+    return out
+
+
+def oracle_qpure(w, queries=None):
+    """Every query / transformation / export / drawing leaves the circuit and each of its gate objects exactly as
+    they were (deep snapshot, vars()-level), and asked again returns an equal result."""
+    try:
+        qc = build_lib_circuit(w)
+    except Exception as e:
+        return False, "not constructible: " + type(e).__name__
+    names = queries or w.get("queries") or sorted(QUERIES)
+    for name in names:
+        before, view = snap(qc), gates_view(qc)
+        first = run_query(name, qc)
+        after, view2 = snap(qc), gates_view(qc)
+        if view != view2:
+            j = next(i for i, (a, b) in enumerate(zip(view, view2)) if a != b)
+            return True, f"query {name} changed gate {j} of the circuit passed in: {view[j]} -> {view2[j]}"
+        if before != after:
+            return True, f"query {name} changed the circuit passed in"
+        if first[0] == "na":
+            continue
+        again = run_query(name, qc)
+        if not close(first, again):
+            return True, f"query {name} asked twice returns different results"
+        if snap(qc) != before:
+            return True, f"query {name} (second call) changed the circuit passed in"
+    return False, f"{len(names)} queries left the circuit unchanged"
+
+
+W_DRAW = {"kind": "qpure", "n": 2, "ncb": 0, "queries": ["draw_text"],
+          "gates": [{"name": "ISWAP", "targets": [1, 0], "controls": None, "arg": None, "cc": None, "ccv": None}]}
+
+
+# ------------------------------------------------------------------------------------------
+# the public pulse-shape generator against the documented waveform (independent reference: scipy's window)
+
+def oracle_shape(w):
+    """GateCompiler.generate_pulse_shape(shape, n, maximum, area), called `repeat` times: every call returns the
+    documented waveform  sign(area)*|maximum| * window  on  linspace(0, t_max, n) * |area|/|maximum|."""
+    from scipy import signal
+    from qutip_qip.compiler import GateCompiler
+    from qutip_qip.compiler import gatecompiler as gcm
+    shape, n, mx, area = w["shape"], w["n"], w["maximum"], w["area"]
+    t_max = gcm._default_window_t_max[shape]
+    t0 = np.linspace(0, t_max, n)
+    if shape == "hann":
+        win = 0.5 - 0.5 * np.cos(np.pi * t0)
+    elif shape == "hamming":
+        win = 0.54 - 0.46 * np.cos(np.pi * t0 * 2 * 0.54)
+    else:
+        win = np.array(signal.windows.get_window(shape, n), dtype=float)
+    exp_c = win * abs(mx) * np.sign(area)
+    exp_t = t0 * abs(area) / abs(mx)
+    for k in range(w.get("repeat", 3)):
+        c, t = GateCompiler.generate_pulse_shape(shape, n, maximum=mx, area=area)
+        c, t = np.array(c, dtype=float), np.array(t, dtype=float)
+        if c.shape != exp_c.shape or not np.allclose(c, exp_c, atol=1e-12, rtol=1e-12):
+            peak = float(np.max(np.abs(c))) if c.size else None
+            return True, (f"generate_pulse_shape({shape!r}, {n}, maximum={mx}, area={area}), call {k + 1}: "
+                          f"peak {peak!r}, the documented waveform has peak {float(np.max(np.abs(exp_c)))!r}")
+        if not np.allclose(t, exp_t, atol=1e-12, rtol=1e-12):
+            return True, f"generate_pulse_shape({shape!r}, …), call {k + 1}: time grid differs from the documented one"
+    return False, "every call returns the documented waveform"
+
+
+W_SHAPE = {"kind": "shape", "shape": "blackman", "n": 11, "maximum": 0.25, "area": -0.5, "repeat": 3}
+
+
+# ------------------------------------------------------------------------------------------
 # device side
 
 PHASE_UNIT = 1e-12
-SHAPES = {0: "rectangular", 1: "hann", 2: "hamming"}
+# tokens 3.. are sampled through scipy.signal.windows.get_window (not the analytic hann/hamming formulas)
+SHAPES = {0: "rectangular", 1: "hann", 2: "hamming", 3: "blackman", 4: "triang", 5: "cosine", 6: "parzen"}
 
 
 def make_processor(kind, n):
@@ -354,6 +523,8 @@ def rand_device(rng, max_calls=8):
     calls = [("load", rng.randrange(len(circuits)), rng.random() < 0.7)]
     shaped = False
     for _ in range(rng.randint(1, max_calls - 1)):
+        if len(calls) >= max_calls:
+            break
         k = rng.random()
         ci = rng.randrange(len(circuits))
         if k < 0.5:
@@ -363,9 +534,14 @@ def rand_device(rng, max_calls=8):
             if rng.random() < 0.5:
                 # a non-rectangular shape needs num_samples (otherwise the real compile raises TypeError)
                 # (continuous shapes are not supported by every CavityQEDCompiler routine: spin chains only)
-                a = [(1, rng.choice([5, 9]))] + ([(0, rng.choice([0, 1, 2]))]
-                                                 if rng.random() < 0.7 and kind != "cqed" else [])
+                a = [(1, rng.choice([5, 8, 9]))] + ([(0, rng.choice(sorted(SHAPES)))]
+                                                    if rng.random() < 0.8 and kind != "cqed" else [])
             calls.append(("compile", ci, a))
+            if a and rng.random() < 0.7:
+                # the same program again, through the processor and through the compiler
+                calls.append(("load", ci, True))
+                if rng.random() < 0.5:
+                    calls.append(("load", ci, True))
         else:
             calls.append(("pquery", rng.choice(sorted(PQUERIES))))
     return {"kind": kind, "n": n, "circuits": circuits, "calls": calls}
@@ -540,15 +716,32 @@ def oracle_getter(w):
     return False, "reading .state between steps does not change the evolution"
 
 
+NOT_EVALUABLE = ("IntegratorException", "LinAlgError", "FloatingPointError", "MemoryError")
+
+
 def oracle_device(dev):
     n = dev["n"]
     recs = run_device(dev)
     cache = {}
+    first = {}
     for j, (rec, c) in enumerate(zip(recs, dev["calls"])):
         if not all(rec["circuits_unchanged"]):
             return True, f"call {j} {c[0]} changed a circuit passed in"
         if "exc" in rec:
+            if rec["exc"].split(":")[0] in NOT_EVALUABLE:
+                # runtime numerics (solver limits, singular systems): not a purity question
+                return False, f"call {j} {c[0]} not evaluable: {rec['exc']}"
             return True, f"call {j} {c[0]} raised {rec['exc']}"
+        if c[0] == "load":
+            # the same (circuit, compiler configuration) loaded earlier in THIS history gave the same program
+            key = (c[1], tuple(recs[j]["comp"]["args"]) if c[2] else ())
+            if key in first:
+                j0 = first[key]
+                if not close(rec["result"], recs[j0]["result"]) or not close(rec["proc"]["pulses"], recs[j0]["proc"]["pulses"]):
+                    return True, (f"call {j} load_circuit(circuit {c[1]}, args {list(key[1])}) gives different pulses than "
+                                  f"the same call {j0} earlier in the history")
+            else:
+                first[key] = j
         if c[0] == "load":
             # a used processor (and a used compiler) behaves like a freshly constructed one with the same
             # configuration: same returned program, same pulses held, same global phase
@@ -590,7 +783,18 @@ def oracle(w):
         return oracle_sim(w)
     if w["kind"] == "getter":
         return oracle_getter(w)
+    if w["kind"] == "qpure":
+        return oracle_qpure(w)
+    if w["kind"] == "shape":
+        return oracle_shape(w)
     return oracle_device(dev_of(w))
+
+
+def rand_shape_witness(rng):
+    return {"kind": "shape", "shape": rng.choice(["blackman", "triang", "cosine", "parzen", "bohman", "nuttall",
+                                                   "hann", "hamming", "bartlett", "flattop", "barthann"]),
+            "n": rng.choice([5, 8, 11, 20, 51]), "maximum": rng.choice([0.25, 0.5, 2.0, -3.0, 1.0]),
+            "area": rng.choice([1.0, -1.0, 0.5, -0.125, 2.0]), "repeat": rng.randint(2, 4)}
 
 
 SIM_QUERIES = sorted(QUERIES)
@@ -788,6 +992,27 @@ class C16(PropertyCheck):
                 if diff:
                     res.disagree(dict(inp, prefix=k + 1), o[:300], "see `what`", diff, w)
                     break
+        # 3. query-only histories on the full gate library (control-less multi-target gates in both target orders,
+        #    user gates, parametric gates, measurements, classical controls): the model answers `Q` (world unchanged)
+        #    to every query, so any change of the circuit or of one of its gate objects is a disagreement
+        nq = 400 if ctx.thorough else 40
+        qnames = sorted(QUERIES)
+        for it in range(nq):
+            w = rand_lib_circuit(rng)
+            mcase = {"n": 1, "ncb": 0, "mode": "sv", "ops": [], "lists": [], "inits": [],
+                     "calls": [("query",)] * len(qnames)}
+            ans = S.parse_answer(drv.run([S.encode(mcase, cfg)])[0])
+            model_pure = ans[0] == "ok" and all(ch["kind"] == "Q" for ch in ans[1])
+            f, d = oracle_qpure(w, qnames)
+            free = [g for g in w["gates"] if "M" not in g and not g.get("controls") and g["targets"] and len(g["targets"]) > 1]
+            res.case({k: w[k] for k in ("n", "ncb", "gates")}, nontrivial=True,
+                     tags=["stream=query-library", "free-multi-target=%d" % len(free),
+                           "descending-targets=%d" % sum(1 for g in free if g["targets"] != sorted(g["targets"]))])
+            if f or not model_pure:
+                res.disagree({k: w[k] for k in ("n", "ncb", "gates")}, "Q (no attribute written)", d,
+                             "model: queries write nothing; implementation: " + d, w)
+        res.notes.append(f"{nq} full-library circuits x {len(qnames)} queries: circuit and every gate object snapshotted "
+                         "before/after each query (model: world unchanged)")
         res.notes.append("observation (not a violation: the aliasing clause is about results of run/run_statistics): "
                          "transformations whose returned circuit shares Gate objects with its argument, with counts: "
                          + json.dumps(SHARING, sort_keys=True))
@@ -803,13 +1028,35 @@ class C16(PropertyCheck):
     def _sweep(self, ctx, budget_s, count):
         rng = ctx.rng
         t0 = time.time()
-        for w in (W_ALIAS, W_PHASE, W_GETTER):
+        for w in (W_ALIAS, W_PHASE, W_GETTER, W_DRAW, W_SHAPE):
             f, d = oracle(w)
             if f:
                 yield w, d
         i = 0
         while time.time() - t0 < budget_s and (count is None or i < count):
             i += 1
+            r = rng.random()
+            if r < 0.25:
+                w = rand_lib_circuit(rng)
+                try:
+                    f, d = oracle(w)
+                except Exception as e:
+                    f, d = False, "not applicable: " + repr(e)[:100]
+                if f:
+                    # name the single query that fails
+                    for q in sorted(QUERIES):
+                        f1, d1 = oracle_qpure(w, [q])
+                        if f1:
+                            w, d = dict(w, queries=[q]), d1
+                            break
+                    yield w, d
+                continue
+            if r < 0.33:
+                w = rand_shape_witness(rng)
+                f, d = oracle(w)
+                if f:
+                    yield w, d
+                continue
             r = rng.random()
             if r < 0.6:
                 w = rand_sim_history(rng)
